@@ -12,8 +12,10 @@
 
    Switches (as in Appendix F): [fe] = F-eofspin repaired (an empty read raises),
    [fc] = F-closerace repaired (CLOSED re-checked after `await self._connect_impl()`),
-   [fl] = F-connect-lost repaired (connect() re-checks for DISCONNECTED before it releases the lock).
-   The theorems are about [fe = fc = fl = true]; the refutations for the code as it was use [false].
+   [fl] = F-connect-lost repaired (connect() re-checks for DISCONNECTED before it releases the lock),
+   [fd] = F-serial-drain-leak repaired (the serial `_connect_impl` closes the port it has just opened when the
+   configuration write / drain raises).
+   The theorems are about [fe = fc = fl = fd = true]; the refutations for the code as it was use [false].
 
    Not modelled: `_seed_network_map` (only runs with build_network_map=True; it is a sequence of
    sleeps and `send`s, and `send` IS modelled), more than one `close()` call, the number of frames a
@@ -55,7 +57,7 @@ Record g := mkG {
   st : cst; lock : bool; hold : holder;
   pending_connects : nat;        (* create_task(self.connect()) not yet started *)
   writer : option nat; next_w : nat; closed_w : list nat;
-  drainfail_w : list nat;        (* writers whose _connect_impl failed after they were obtained *)
+  drainfail_w : list nat;        (* writers whose _connect_impl failed after they were obtained and that were left open (fd = false) *)
   attempts : nat;                (* number of _connect_impl calls started *)
   rx : rxs; rx_creq : bool;      (* current receive task and "cancel() requested, not yet delivered" *)
   old_creq : nat;                (* superseded receive tasks, cancel requested, not yet finished *)
@@ -220,7 +222,7 @@ Definition allowed (x : g) (a : act) : bool :=
 
 Section Model.
 Variable k : kind.
-Variables fe fc fl : bool.
+Variables fe fc fl fd : bool.
 
 Definition trans (x : g) (a : act) : option g :=
   if negb (allowed x a) then None else
@@ -250,8 +252,9 @@ Definition trans (x : g) (a : act) : option g :=
       | HAwaitImpl n => if d =? wait2 (Z.of_nat n) then Some (x <| hold := HBackoff n |>) else None
       | HAwaitDrain n =>
           if d =? wait2 (Z.of_nat n)
-          then Some (x <| drainfail_w := match writer x with Some w => w :: drainfail_w x | None => drainfail_w x end |>
-                       <| hold := HBackoff n |>)
+          then (if fd then Some (close_cur_writer x <| hold := HBackoff n |>)       (* except: self.writer.close(); raise *)
+                else Some (x <| drainfail_w := match writer x with Some w => w :: drainfail_w x | None => drainfail_w x end |>
+                             <| hold := HBackoff n |>))
           else None
       | _ => None
       end
@@ -259,7 +262,8 @@ Definition trans (x : g) (a : act) : option g :=
       match k, hold x with
       | KSerial, HAwaitImpl n =>
           if d =? wait2 (Z.of_nat n)
-          then Some (new_conn x <| drainfail_w := next_w x :: drainfail_w x |> <| hold := HBackoff n |>)
+          then (if fd then Some (close_cur_writer (new_conn x) <| hold := HBackoff n |>)
+                else Some (new_conn x <| drainfail_w := next_w x :: drainfail_w x |> <| hold := HBackoff n |>))
           else None
       | _, _ => None
       end
